@@ -270,6 +270,7 @@ Crash ==
 Corrupt(pg, g) ==
     /\ corrupts < MaxCorrupt /\ lock = None /\ \A p \in Procs : pc[p] = "idle"
     /\ g \in OnPage(pg)
+    /\ pg <= Page(disk.lcHigh)                              \* leaves exist (and the repair loop runs) up to the highest clock
     /\ corrupts' = corrupts + 1
     /\ mem' = [mem EXCEPT !.xor = SymDiff(@, {g})]
     /\ disk' = [disk EXCEPT !.xor = SymDiff(@, {g})]
